@@ -55,7 +55,20 @@ func (f *Frame) callMods(in ssa.CallInstruction) ([]string, bool) {
 		return h.mods(f, cc), false
 	}
 	if con := f.c.eng.contractFor(callee); con != nil && !(con.Inline && f.c.eng.canInlineForce(callee)) {
-		return f.contractModKeys(con, callee)
+		ks, all := f.contractModKeys(con, callee)
+		// `modifies *p` where the argument passed for p is an interior address (slice element, field): the memory
+		// written lives in the heap of the enclosing object
+		for _, item := range con.Modifies {
+			if !strings.HasPrefix(item, "*") || strings.Contains(item, ".") {
+				continue
+			}
+			for i, p := range callee.Params {
+				if p.Name() == item[1:] && i < len(cc.Args) {
+					ks = append(ks, f.staticHeapKeys(cc.Args[i])...)
+				}
+			}
+		}
+		return ks, all
 	}
 	if pureExternal(name) {
 		return nil, false
@@ -577,6 +590,10 @@ func (f *Frame) execCopy(cur *blockCur, in ssa.Instruction, args []Val, res *ssa
 			na, doff, doff, n, srcAt(fmt.Sprintf("(bvsub i %s)", doff)), old, na))
 	}
 	cur.st = cur.st.set(k, fmt.Sprintf("(store %s (s_ref %s) %s)", h, d.S, na))
+	if bp, ok := c.interior[d.S]; ok {
+		// the destination views an array embedded in another object: write the new contents back
+		cur.st = c.store(cur.st, bp, na)
+	}
 	return Val{T: types.Typ[types.Int], S: n}
 }
 
